@@ -7,4 +7,6 @@ pub mod bddi;
 pub mod cnfgen;
 pub mod oracle;
 pub mod vtgen;
+pub mod sddi;
+pub mod exprgen;
 pub mod props;
